@@ -781,4 +781,51 @@ theorem search_single_stable {ε : Rat} (hε : 0 ≤ ε) {m : Nat → Rat}
   rw [h3, h3']
   exact ⟨_, _, rfl, rfl, slotsSame_toWidth sel sel' cfg.width t1 t1' hsame hle⟩
 
+/-! ## Part 7 — a constant margin is enough (what the driver evaluates)
+
+The driver evaluates `sepB m` with ONE margin `m` on every selection of the trajectory. `sepB` and
+`tieFree` are monotone in the margin, so this implies the step-dependent hypothesis
+`tieFree (margin ε)` of the stability theorems for every `ε` whose largest demanded margin
+(`2 · maxIters · ε`, at the last step) does not exceed `m`. -/
+
+theorem apart_mono {m m' : Rat} (h : m' ≤ m) {x y : Score} (ha : Score.apart m x y = true) :
+    Score.apart m' x y = true := by
+  cases x <;> cases y <;> simp_all [Score.apart]
+  grind
+
+theorem sepB_mono {m m' : Rat} (h : m' ≤ m) {c : List Score} {inds : List Nat}
+    (hs : sepB m c inds = true) : sepB m' c inds = true := by
+  unfold sepB at hs ⊢
+  rw [List.all_eq_true] at hs ⊢
+  intro i hi
+  have h1 := hs i hi
+  rw [Bool.or_eq_true] at h1 ⊢
+  rcases h1 with h1 | h1
+  · exact Or.inl h1
+  · refine Or.inr ?_
+    rw [List.all_eq_true] at h1 ⊢
+    intro j hj
+    have h2 := h1 j hj
+    simp only [Bool.or_eq_true] at h2 ⊢
+    rcases h2 with (h2 | h2) | h2
+    · exact Or.inl (Or.inl h2)
+    · exact Or.inl (Or.inr (apart_mono h h2))
+    · exact Or.inr (apart_mono h h2)
+
+theorem tieFree_mono {m m' : Nat → Rat} (sel : Sel) (cfg : Cfg) (lm : LM σ) (dflt : σ) (fuel : Nat) :
+    ∀ (t : Nat) (e : Elem σ), (∀ t', t ≤ t' → t' < t + fuel → m' t' ≤ m t') →
+      tieFree m sel cfg lm dflt fuel t e = true → tieFree m' sel cfg lm dflt fuel t e = true := by
+  induction fuel with
+  | zero => intro t e _ _; rfl
+  | succ fuel ih =>
+    intro t e hm h
+    rw [tieFree] at h ⊢
+    split
+    · rfl
+    · rename_i hc
+      rw [if_neg hc] at h
+      rw [Bool.and_eq_true] at h ⊢
+      exact ⟨sepB_mono (hm t (Nat.le_refl _) (by omega)) h.1,
+        ih (t + 1) _ (fun t' h1 h2 => hm t' (by omega) (by omega)) h.2⟩
+
 end PdtVerif.Beam
